@@ -392,6 +392,14 @@ def dict_mutations(R, ir, fmt, wrappers, rng, tier, repro):
         except Exception:
             continue
         (mkey, body), = doc.items()
+        # the request as it is has to be served: a mutation of a request that is refused anyway shows nothing
+        B.calls[:] = []
+        r0 = drive.drive_server(server, codec.dumps(doc))
+        if r0.error is not None or r0.exc is not None or not B.calls:
+            R.skip('the unmutated request is not served (%s)' % (getattr(r0.error, 'faultcode', None) or type(r0.exc).__name__))
+            R.count('baseline_requests_refused')
+            continue
+        R.count('baseline_requests_served')
         pos = list(positions(body))
         rng.shuffle(pos)
         muts = []
@@ -553,6 +561,9 @@ def run(spec, R):
         rng = core.rng_for(spec['seed'], PROP, 'kinds%d' % si)
         ir = c10.all_kinds_universe()
         ir['services'][0]['methods'] = ir['services'][0]['methods'][:1]        # mk(a: KK): members and attributes
+        for td in ir['types']:
+            # (the members that C10 keeps for malformed binary text would make every request of this check invalid from the start)
+            td['fields'] = [f for f in td['fields'] if f[0] not in ('kx', 'ku')]
         dict_mutations(R, ir, fmt, wrappers, rng, 'thorough', {'seed': spec['seed'], 'uid': 9200, 'all_kinds': True})
         R.count('all_kinds_families')
 
